@@ -205,7 +205,7 @@ func genTrapCase(r *rng.R) *trapCase {
 	p.code = append(p.code, 0x00)
 	c.code = p.code
 	// rarely: thousands of traps in ONE run (a loop storing to the trap address 24 x 256 times)
-	if r.Chance(1) && c.t >= 0x0200 {
+	if r.Intn(300) == 0 && c.t >= 0x0200 {
 		c.kind, c.base = 0, "sparse"
 		if c.path == "N" {
 			c.path = "A"
